@@ -46,7 +46,8 @@ def required_cells(tier):
             'search-path-spelling:dot', 'search-path-shape:empty-list:nothing', 'search-path-shape:empty-tuple:nothing',
             'search-path-shape:nothing-there:nothing', 'search-path-shape:second-entry:found',
             'search-path-shape:first-entry:found', 'search-path-shape:tuple:found',
-            'import:requested-file-wins-a-name-conflict', 'import:zip-archive:ok', 'import:zip-archive:raises']
+            'import:requested-file-wins-a-name-conflict', 'import:zip-archive:ok', 'import:zip-archive:raises',
+            'resolve:through-a-symlink-below-the-root']
 
 
 def build(rng, root, uniq):
@@ -90,6 +91,20 @@ def build(rng, root, uniq):
                     mk(sub, depth + 1)
             feats.add(kind)
     mk(root, 0)
+    if rng.random() < 0.5:
+        # symbolic links BELOW the search-path entry: a package directory and a module file that live elsewhere under
+        # other names.  Names, paths and imports follow the link names, the way the interpreter sees the tree
+        store = root + '_store'
+        impl = os.path.join(store, 'impl_%s' % uniq)
+        os.makedirs(os.path.join(impl, 'subp'))
+        for rel in ('__init__.py', 'mod_a.py', 'subp/__init__.py', 'subp/leaf.py'):
+            with open(os.path.join(impl, rel), 'w') as f:
+                f.write('NAME = %r\n' % rel)
+        with open(os.path.join(store, 'plugin_impl_%s.py' % uniq), 'w') as f:
+            f.write('NAME = "plugin"\n')
+        os.symlink(impl, os.path.join(root, 'alias_%s' % uniq))
+        os.symlink(os.path.join(store, 'plugin_impl_%s.py' % uniq), os.path.join(root, 'linkmod_%s.py' % uniq))
+        feats.add('symlinks-below-the-root')
     return feats
 
 
@@ -158,7 +173,7 @@ def check_every_file(ctx, root, case, when):
 
 def all_names(root):
     out = set()
-    for dp, dn, fn in os.walk(root):
+    for dp, dn, fn in os.walk(root, followlinks=True):
         rel = os.path.relpath(dp, root)
         base = [] if rel == '.' else rel.split(os.sep)
         for f in fn:
@@ -187,7 +202,7 @@ def check_tree(ctx, idx, seed):
     os.mkdir(root)
     uniq = 's%dx%dx%d' % (ctx.seed, ctx.shard, idx)
     try:
-        build(rng, root, uniq)
+        tree_feats = build(rng, root, uniq)
         link = root + '_link'
         os.symlink(root, link)
         listing = sorted(os.path.relpath(os.path.join(dp, f), root) for dp, _, fn in os.walk(root) for f in fn)
@@ -251,6 +266,8 @@ def check_tree(ctx, idx, seed):
                 ctx.cell('resolve:module-and-package')
             if parts[-1] == '__main__' and got:
                 ctx.cell('resolve:main-file')
+            if got and 'symlinks-below-the-root' in tree_feats and parts[0].startswith(('alias_', 'linkmod_')):
+                ctx.cell('resolve:through-a-symlink-below-the-root')
             if cls == 'found-module' and os.path.isdir(os.path.join(root, *parts)):
                 ctx.cell('resolve:module-beside-plain-directory')
             if not got:
@@ -475,6 +492,7 @@ def check_tree(ctx, idx, seed):
         shutil.rmtree(root, ignore_errors=True)
         shutil.rmtree(root + '_empty', ignore_errors=True)
         shutil.rmtree(root + '_shadow', ignore_errors=True)
+        shutil.rmtree(root + '_store', ignore_errors=True)
         try:
             os.unlink(root + '_link')
         except OSError:
